@@ -22,6 +22,7 @@ const (
 	SymLoop                 // havoc'ed loop-carried value
 	SymApp                  // uninterpreted application
 	SymLen                  // len(x)
+	SymKey                  // (Engine.Ext) component of the key / value a range-over-map iteration yields; Slice = the map
 )
 
 type SymInfo struct {
